@@ -7,6 +7,20 @@
 //   (c)     subset schedules: all (num_subsets <= 12, start_subset, start_subiteration <= 2N+1, randomise,
 //           two lengths) run through OSMAPOSLReconstruction with a harness-side recording objective function.
 // No projector is ever run for (a)/(b) except in the small "set_up agrees with the predicate" sample.
+//
+// Extension: OBJECT-REUSE HISTORIES (the enumeration above runs every case on FRESH objects).
+//   (c')    kind "hist": 2-4 consecutive runs on ONE OSMAPOSLReconstruction / OSSPSReconstruction object; between runs
+//           the public setters (set_num_subsets, set_num_subiterations, set_start_subiteration_num,
+//           set_start_subset_num, set_randomise_subset_order, set_objective_function_sptr) change the configuration
+//           (N2 < N1, N2 > N1, N2 == N1, randomise switched on/off, starts inside an iteration, resumes), then set_up
+//           (or no set_up where none is required); EVERY run's recorded schedule must satisfy the validity predicate of
+//           a fresh object.  A bounded-exhaustive block of 2- and 3-run histories is part of the enumeration (both
+//           flavours: the ASan build decides the out-of-range reads), generated histories go beyond it.
+//   (a'/b') kind "cfgops": ONE symmetries object / ONE objective function is asked for (num_subsets, subset) lists and
+//           for the balancedness predicate in GENERATED order (num_subsets going up and down, repeated,
+//           max_segment_num_to_process changed in between, set_up of the objective function in between): repeated
+//           answers must be identical, the lists collected for one num_subsets must still be the counting partition,
+//           the predicate must equal the harness's own count for the CURRENT (num_subsets, segment range).
 #include "explicit_p.h"
 #include "stir/ProjDataInfoSubsetByView.h"
 #include "stir/ProjDataInMemory.h"
@@ -23,6 +37,9 @@
 #include "stir/recon_buildblock/PoissonLogLikelihoodWithLinearModelForMeanAndProjData.h"
 #include "stir/recon_buildblock/PoissonLogLikelihoodWithLinearModelForMean.h"
 #include "stir/OSMAPOSL/OSMAPOSLReconstruction.h"
+#include "stir/OSSPS/OSSPSReconstruction.h"
+#include <cstdlib>
+#include <sstream>
 #include <map>
 #include <set>
 
@@ -178,7 +195,8 @@ check_partition(const ProjDataInfo& pdi,
                 const int smax,
                 const int N,
                 std::vector<long>& own_count,
-                int& max_group)
+                int& max_group,
+                const std::vector<std::vector<ViewSegmentNumbers>>* given = nullptr) // lists obtained earlier (reuse histories)
 {
   const int vmin = pdi.get_min_view_num(), vmax = pdi.get_max_view_num();
   const int nv = vmax - vmin + 1, ns = smax - smin + 1;
@@ -191,7 +209,8 @@ check_partition(const ProjDataInfo& pdi,
   std::vector<ViewSegmentNumbers> rel;
   for (int subset = 0; subset < N; ++subset)
     {
-      const std::vector<ViewSegmentNumbers> L = detail::find_basic_vs_nums_in_subset(pdi, sym, smin, smax, subset, N);
+      const std::vector<ViewSegmentNumbers> L
+          = given ? (*given)[std::size_t(subset)] : detail::find_basic_vs_nums_in_subset(pdi, sym, smin, smax, subset, N);
       for (const ViewSegmentNumbers& vs : L)
         {
           VF_CHECK(vs.segment_num() >= smin && vs.segment_num() <= smax && vs.view_num() >= vmin && vs.view_num() <= vmax,
@@ -248,17 +267,13 @@ pet_exam_info()
   return e;
 }
 
+//! the symmetries objects for symmetry code `code` on geometry g (projector pair's and directly constructed)
 Result
-check_config(const json& c)
+build_pair(const int code, const Geo& g, shared_ptr<ProjectorByBinPair>& pair, shared_ptr<DataSymmetriesForViewSegmentNumbers>& direct_sym)
 {
-  Geo g;
-  shared_ptr<ProjectorByBinPair> pair;
-  shared_ptr<DataSymmetriesForViewSegmentNumbers> direct_sym; // constructed directly
-  const int code = c["sym"];
   const SymSwitches sw = switches(code);
   try
     {
-      g = build_geo(c);
       if (code == 0)
         {
           shared_ptr<TrivialSymBackProjector> bp(new TrivialSymBackProjector);
@@ -283,6 +298,38 @@ check_config(const json& c)
     {
       return Result::reject(std::string("construction rejected: ") + e.what());
     }
+  return Result::pass();
+}
+
+//! geometry + the symmetries objects of a configuration case
+Result
+build_config(const json& c, Geo& g, shared_ptr<ProjectorByBinPair>& pair, shared_ptr<DataSymmetriesForViewSegmentNumbers>& direct_sym)
+{
+  try
+    {
+      g = build_geo(c);
+    }
+  catch (const stir_verif::AssertionFailure&)
+    {
+      throw;
+    }
+  catch (const std::exception& e)
+    {
+      return Result::reject(std::string("construction rejected: ") + e.what());
+    }
+  return build_pair(c["sym"], g, pair, direct_sym);
+}
+
+Result
+check_config(const json& c)
+{
+  Geo g;
+  shared_ptr<ProjectorByBinPair> pair;
+  shared_ptr<DataSymmetriesForViewSegmentNumbers> direct_sym; // constructed directly
+  const int code = c["sym"];
+  const Result br = build_config(c, g, pair, direct_sym);
+  if (br.kind != Result::PASS)
+    return br;
   const DataSymmetriesForViewSegmentNumbers& sym = *pair->get_back_projector_sptr()->get_symmetries_used();
   // (operator== of two distinct DataSymmetriesForBins_PET_CartesianGrid objects recurses without end,
   //  see work/notes/C06_findings.md "incidental"; the objects are therefore compared by behaviour below)
@@ -404,7 +451,9 @@ check_config(const json& c)
           }
         std::vector<long> own;
         int mg = 1;
-        Result r = check_partition(pdi, sym, -pm, pm, N, own, mg);
+        // (set_up of the objective function sets the projector pair up again, which creates a NEW symmetries object:
+        //  the object is fetched again, `sym` from above no longer exists)
+        Result r = check_partition(pdi, *pair->get_back_projector_sptr()->get_symmetries_used(), -pm, pm, N, own, mg);
         if (r.failed())
           return r;
         bool own_balanced = true;
@@ -420,6 +469,13 @@ check_config(const json& c)
 
 // ------------------------------------------------------------------------------------------------
 // (c) schedules
+
+//! thrown by the recording objective function when it is asked for a subset that does not exist (the library would
+//! go on to index its subset sensitivities with it)
+struct SubsetOutOfRange : std::runtime_error
+{
+  using std::runtime_error::runtime_error;
+};
 
 class RecordingObjective : public PoissonLogLikelihoodWithLinearModelForMean<Target>
 {
@@ -457,6 +513,10 @@ public:
   void actual_compute_subset_gradient_without_penalty(Target& gradient, const Target&, const int subset_num, const bool) override
   {
     gradient_subsets.push_back(subset_num);
+    // a subset that does not exist is recorded (the oracle reports it) and the run is stopped here: OSMAPOSL would use
+    // it as an index into the subset sensitivities next
+    if (subset_num < 0 || subset_num >= this->num_subsets)
+      throw SubsetOutOfRange(cat("the objective function (num_subsets=", this->num_subsets, ") is asked for subset ", subset_num));
     gradient.fill(1.F);
   }
 
@@ -465,6 +525,54 @@ protected:
   double actual_compute_objective_function_without_penalty(const Target&, const int) override { return 0.; }
   bool actual_subsets_are_approximately_balanced(std::string&) const override { return true; }
 };
+
+//! the validity predicate of clause (c) for ONE run: sub-iterations start_subiter..K with N subsets.
+/*! every completely run window [kN+1,(k+1)N] contains every subset exactly once; distinct subsets in a partially run
+    window; all subset numbers in [0,N); without randomisation the documented formula (IterativeReconstruction.h,
+    get_subset_num).  `stopped` = the run was stopped by the recorder/an exception: the number of requests is then not
+    checked (the reason is reported by the caller if the recorded part is valid). */
+Result
+validate_schedule(const std::vector<int>& used,
+                  const int N,
+                  const int start_subset,
+                  const int start_subiter,
+                  const int K,
+                  const bool randomise,
+                  const std::string& where,
+                  const bool stopped,
+                  long& complete)
+{
+  std::string seq;
+  for (int s : used)
+    seq += cat(s, " ");
+  const int expected_calls = std::max(0, K - start_subiter + 1);
+  if (!stopped)
+    VF_CHECK(int(used.size()) == expected_calls, where, "sub-iterations ", start_subiter, "..", K, " should request ", expected_calls,
+             " subset gradients, got ", used.size(), ": ", seq);
+  std::map<int, std::set<int>> window; // window index -> subsets used in it
+  std::map<int, int> window_len;
+  for (std::size_t i = 0; i < used.size(); ++i)
+    {
+      const int t = start_subiter + int(i); // sub-iteration number (1-based)
+      const int s = used[i];
+      VF_CHECK(s >= 0 && s < N, where, "sub-iteration ", t, " used subset ", s, " outside 0..", N - 1, "; observed: ", seq);
+      if (!randomise)
+        VF_CHECK(s == (t + start_subset - 1) % N, where, "sub-iteration ", t, " used subset ", s, " instead of (", t, "+", start_subset, "-1) mod ", N,
+                 "; observed: ", seq);
+      const int w = (t - 1) / N;
+      VF_CHECK(window[w].insert(s).second, where, "subset ", s, " is used twice within full iteration ", w + 1, " (sub-iterations ", w * N + 1, "..",
+               (w + 1) * N, "); num_subsets=", N, " start sub-iteration ", start_subiter, " randomise=", randomise, "; observed: ", seq);
+      ++window_len[w];
+    }
+  complete = 0;
+  for (auto& kv : window_len)
+    if (kv.second == N)
+      {
+        VF_CHECK(int(window[kv.first].size()) == N, where, "full iteration ", kv.first + 1, " does not use every subset; observed: ", seq);
+        ++complete;
+      }
+  return Result::pass();
+}
 
 Result
 check_schedule(const json& c)
@@ -501,9 +609,15 @@ check_schedule(const json& c)
   stir_verif::asserts_on = false;
 #endif
   Succeeded ok = Succeeded::no;
+  std::string stopped;
   try
     {
       ok = recon.reconstruct(target);
+    }
+  catch (const SubsetOutOfRange& e)
+    {
+      stir_verif::asserts_on = false; // (running timers, see below)
+      stopped = e.what();
     }
   catch (...)
     {
@@ -512,39 +626,15 @@ check_schedule(const json& c)
       stir_verif::asserts_on = false;
       throw;
     }
+  long complete = 0;
+  const Result r = validate_schedule(obj->gradient_subsets, N, start_subset, start_subiter, K, randomise, "", !stopped.empty(), complete);
+  if (r.failed())
+    return r;
+  VF_CHECK(stopped.empty(), stopped);
   stir_verif::asserts_on = true;
   VF_CHECK(ok == Succeeded::yes, "reconstruct() did not succeed");
-  const std::vector<int>& used = obj->gradient_subsets;
-  std::string seq;
-  for (int s : used)
-    seq += cat(s, " ");
-  const int expected_calls = std::max(0, K - start_subiter + 1);
-  VF_CHECK(int(used.size()) == expected_calls, "sub-iterations ", start_subiter, "..", K, " should request ", expected_calls, " subset gradients, got ",
-           used.size(), ": ", seq);
-  std::map<int, std::set<int>> window; // window index -> subsets used in it
-  std::map<int, int> window_len;
-  for (std::size_t i = 0; i < used.size(); ++i)
-    {
-      const int t = start_subiter + int(i); // sub-iteration number (1-based)
-      const int s = used[i];
-      VF_CHECK(s >= 0 && s < N, "sub-iteration ", t, " used subset ", s, " outside 0..", N - 1, "; observed: ", seq);
-      if (!randomise)
-        VF_CHECK(s == (t + start_subset - 1) % N, "sub-iteration ", t, " used subset ", s, " instead of (", t, "+", start_subset, "-1) mod ", N,
-                 "; observed: ", seq);
-      const int w = (t - 1) / N;
-      VF_CHECK(window[w].insert(s).second, "subset ", s, " is used twice within full iteration ", w + 1, " (sub-iterations ", w * N + 1, "..", (w + 1) * N,
-               "); num_subsets=", N, " start sub-iteration ", start_subiter, " randomise=", randomise, "; observed: ", seq);
-      ++window_len[w];
-    }
-  long complete = 0;
-  for (auto& kv : window_len)
-    if (kv.second == N)
-      {
-        VF_CHECK(int(window[kv.first].size()) == N, "full iteration ", kv.first + 1, " does not use every subset; observed: ", seq);
-        ++complete;
-      }
   stats().count("complete iterations checked", complete);
-  stats().count("sub-iterations observed", long(used.size()));
+  stats().count("sub-iterations observed", long(obj->gradient_subsets.size()));
   stats().cls(randomise ? "schedule: randomised" : "schedule: sequential");
   if ((start_subiter - 1) % N != 0)
     stats().cls("schedule: starts inside an iteration");
@@ -553,12 +643,463 @@ check_schedule(const json& c)
   return Result::pass();
 }
 
+// ------------------------------------------------------------------------------------------------
+// (c') object-reuse histories: several runs on ONE reconstruction object
+//
+// Case: { kind:"hist", algo: 0 (OSMAPOSL) | 1 (OSSPS), maxN, rseed, ops: [ ["run", aN, aSS, aSSI, aExtra, aRand, flags], ... ] }
+// The arguments are interpreted modulo the state (any sub-sequence of the list is a valid history):
+//   num_subsets N      = 1 + aN mod maxN                 (flags&1: set_num_subsets is NOT called, N stays)
+//   randomise          = aRand&1                         (flags&2: set_randomise_subset_order is NOT called)
+//   start_subset       = aSS mod N                       (flags&4: set_start_subset_num is NOT called if the old value is
+//                                                         still < N; IterativeReconstruction::set_up: "Range error in
+//                                                         starting subset (has to be between 0 and num_subsets-1)")
+//   start sub-iteration= 1 + aSSI mod (3N+1)             (flags&16: previous num_subiterations + 1, i.e. a resume)
+//   num_subiterations  = max(1, start + (aExtra mod (4N+2)) - 1)   (start-1 = an empty run; set_up: "has to be >= 1")
+//   flags&8 : no set_up before this run where none is required: Reconstruction::check only demands set_up after
+//             set_num_subsets / set_input_data / set_post_processor_sptr (they reset _already_set_up); OSSPS documents
+//             "you have to call set_up() before running a new reconstruction", so OSSPS is always set up again
+//   flags&32: a NEW objective function object is given to the reconstruction object (then set_up is needed)
+// The first run sets everything (exactly the calls of check_schedule).  rand() is seeded by the harness after set_up
+// (which seeds it from the clock) and before reconstruct(): the permutations are a pure function of the Case.
+struct HistRun
+{
+  int N, start_subset, start_subiter, K;
+  bool randomise;
+  bool call_set_N, call_set_rand, call_set_ss, do_set_up, resume, new_objective;
+};
+
+Result
+check_history(const json& c)
+{
+  const bool ossps = c.value("algo", 0) == 1;
+  const int maxN = std::max(1, c.value("maxN", 12));
+  const unsigned rseed = unsigned(c.value("rseed", 1));
+  const json& ops = c["ops"];
+  const char* const algo = ossps ? "OSSPSReconstruction" : "OSMAPOSLReconstruction";
+  shared_ptr<RecordingObjective> obj(new RecordingObjective);
+  shared_ptr<IterativeReconstruction<Target>> recon;
+  shared_ptr<Target> target(obj->construct_target_ptr());
+  target->fill(1.F);
+  try
+    {
+      if (ossps)
+        {
+          shared_ptr<OSSPSReconstruction<Target>> r(new OSSPSReconstruction<Target>);
+          r->set_objective_function_sptr(obj);
+          r->set_disable_output(true);
+          // the precomputed denominator has no setter; "1" = all ones (OSSPSReconstruction::set_up), nothing is written to file
+          std::stringstream par("OSSPSParameters :=\nprecomputed denominator := 1\nEnd :=\n");
+          if (!r->parse(par))
+            return Result::reject("parsing the OSSPS parameters failed");
+          recon = r;
+        }
+      else
+        {
+          recon.reset(new OSMAPOSLReconstruction<Target>);
+          recon->set_objective_function_sptr(obj);
+          recon->set_disable_output(true);
+        }
+    }
+  catch (const stir_verif::AssertionFailure&)
+    {
+      throw;
+    }
+  catch (const std::exception& e)
+    {
+      return Result::reject(std::string("construction rejected: ") + e.what());
+    }
+
+  // what the setters were last given (the documented state of the object)
+  HistRun cur{ 0, 0, 1, 1, false, false, false, false, false, false, false };
+  bool first = true;
+  int run_no = 0;
+  for (const json& op : ops)
+    {
+      ++run_no;
+      const long aN = op.at(1), aSS = op.at(2), aSSI = op.at(3), aExtra = op.at(4), aRand = op.at(5), flags = op.at(6);
+      HistRun r = cur;
+      r.call_set_N = first || !(flags & 1);
+      if (r.call_set_N)
+        r.N = 1 + int(aN % maxN);
+      r.call_set_rand = first || !(flags & 2);
+      if (r.call_set_rand)
+        r.randomise = (aRand & 1) != 0;
+      r.call_set_ss = first || !(flags & 4) || cur.start_subset >= r.N;
+      if (r.call_set_ss)
+        r.start_subset = int(aSS % r.N);
+      r.resume = !first && (flags & 16);
+      r.start_subiter = r.resume ? cur.K + 1 : 1 + int(aSSI % (3 * r.N + 1));
+      r.K = std::max(1, r.start_subiter + int(aExtra % (4 * r.N + 2)) - 1);
+      r.new_objective = !first && (flags & 32);
+      r.do_set_up = first || r.call_set_N || r.new_objective || ossps || !(flags & 8);
+      const std::string where = cat("run ", run_no, " of ", ops.size(), " on ONE ", algo, " object (num_subsets ", cur.N, "->", r.N, r.call_set_N ? "" : " [kept]",
+                                    ", randomise ", cur.randomise, "->", r.randomise, ", start subset ", r.start_subset, ", sub-iterations ", r.start_subiter, "..",
+                                    r.K, r.resume ? " [resume]" : "", r.new_objective ? ", new objective function object" : "",
+                                    r.do_set_up ? ", set_up" : ", NO set_up", "): ");
+      try
+        {
+          if (r.new_objective)
+            {
+              obj.reset(new RecordingObjective);
+              recon->set_objective_function_sptr(obj);
+            }
+          if (r.call_set_N)
+            recon->set_num_subsets(r.N);
+          recon->set_num_subiterations(r.K);
+          recon->set_start_subiteration_num(r.start_subiter);
+          if (r.call_set_ss)
+            recon->set_start_subset_num(r.start_subset);
+          if (r.call_set_rand)
+            recon->set_randomise_subset_order(r.randomise);
+          if (r.do_set_up && recon->set_up(target) != Succeeded::yes)
+            return Result::reject(where + "set_up failed");
+        }
+      catch (const stir_verif::AssertionFailure&)
+        {
+          throw;
+        }
+      catch (const std::exception& e)
+        {
+          // (never observed: every generated configuration satisfies the range tests of IterativeReconstruction::set_up)
+          return Result::reject(where + "set_up rejected: " + e.what());
+        }
+      // the model agrees with what the object reports
+      VF_CHECK(recon->get_num_subsets() == r.N && recon->get_start_subset_num() == r.start_subset && recon->get_start_subiteration_num() == r.start_subiter
+                   && recon->get_num_subiterations() == r.K && recon->get_randomise_subset_order() == r.randomise,
+               where, "the object reports num_subsets=", recon->get_num_subsets(), " start_subset=", recon->get_start_subset_num(),
+               " start_subiteration=", recon->get_start_subiteration_num(), " num_subiterations=", recon->get_num_subiterations(),
+               " randomise=", recon->get_randomise_subset_order());
+      obj->gradient_subsets.clear();
+      std::srand(rseed * 7919u + unsigned(run_no));
+#if C06_SANITIZED
+      // under ASan/UBSan the sanitizer is the oracle for memory errors: Release behaviour (no assert()) is executed
+      stir_verif::asserts_on = false;
+#endif
+      Succeeded ok = Succeeded::no;
+      std::string stopped;
+      try
+        {
+          ok = recon->reconstruct(target);
+        }
+      catch (const std::exception& e)
+        {
+          // (SubsetOutOfRange of the recorder, error() of the library, a failed assert() of the library.)
+          // The timers of the reconstruction object are still running; their destructors assert(!running), which would
+          // terminate the process instead of reporting the case
+          stir_verif::asserts_on = false;
+          stopped = cat(dynamic_cast<const stir_verif::AssertionFailure*>(&e) ? "ASSERT " : "", e.what());
+        }
+      long complete = 0;
+      const Result v = validate_schedule(obj->gradient_subsets, r.N, r.start_subset, r.start_subiter, r.K, r.randomise, where, !stopped.empty(), complete);
+      if (v.failed())
+        return stopped.empty() ? v : Result::fail(v.msg + " [run stopped: " + stopped + "]");
+      VF_CHECK(stopped.empty(), where, "the run was stopped: ", stopped);
+      stir_verif::asserts_on = true;
+      VF_CHECK(ok == Succeeded::yes, where, "reconstruct() did not succeed");
+      stats().count("complete iterations checked", complete);
+      stats().count("sub-iterations observed", long(obj->gradient_subsets.size()));
+      if (!first)
+        {
+          stats().count("reuse: runs on a used object checked");
+          stats().cls(r.N < cur.N ? "reuse: N2 < N1" : r.N > cur.N ? "reuse: N2 > N1" : "reuse: N2 == N1");
+          stats().cls(cat("reuse: randomise ", cur.randomise ? "on" : "off", " -> ", r.randomise ? "on" : "off"));
+          if (r.randomise && r.N != cur.N && (r.start_subiter - 1) % r.N != 0)
+            stats().cls("reuse: randomised, num_subsets changed, start inside an iteration");
+          if ((r.start_subiter - 1) % r.N != 0)
+            stats().cls("reuse: run starts inside an iteration");
+          if (r.resume)
+            stats().cls("reuse: resume at previous end + 1");
+          if (!r.do_set_up)
+            stats().cls("reuse: no set_up before the run");
+          if (r.new_objective)
+            stats().cls("reuse: new objective function object");
+          if (!r.call_set_ss)
+            stats().cls("reuse: start subset kept");
+          if (r.K < r.start_subiter)
+            stats().cls("reuse: empty run");
+        }
+      cur = r;
+      first = false;
+    }
+  stats().cls(cat("history: ", algo, ", ", std::min<std::size_t>(ops.size(), 4), ops.size() > 4 ? "+" : "", " runs"));
+  return Result::pass();
+}
+
+// ------------------------------------------------------------------------------------------------
+// (a'/b') ONE symmetries object / ONE objective function asked in generated order
+//
+// Case: the fields of a configuration case + sym_alt + ops: [ [op, a, b], ... ], interpreted modulo the state:
+//   op mod 6 = 0  list of (num_subsets N = 1 + a mod views, subset = b mod N) over the whole segment range of the data
+//              (a/views odd: asked of the directly constructed symmetries object instead of the projector's)
+//            1  the same over -pm..pm, pm = the CURRENT max_segment_num_to_process (symmetric data only)
+//            2  obj.set_num_subsets(N); subsets_are_approximately_balanced() == own count for (N, pm)
+//            3  obj.set_max_segment_num_to_process(pm = a mod (max segment+1)); the predicate for the CURRENT N
+//            4  a second objective function object (use_subset_sensitivities=false): set_num_subsets(N),
+//               set_max_segment_num_to_process(b mod ..), set_up: succeeds exactly when balanced (as the fresh-object
+//               sample; non-TOF, not the trivial-symmetries stub, not in the sanitizer build, <= 24 views); its set_up
+//               sets the SHARED projector pair up again, i.e. replaces the symmetries object the later queries see
+//            5  obj.set_projector_pair_sptr(the other of two projector pairs: symmetry code sym / sym_alt on the same
+//               geometry); the predicate for the CURRENT (N, pm) now has to follow the other symmetries object
+//               (the same num_subsets is balanced for one symmetry group and unbalanced for another)
+// Every repeated list of the same object must be identical to its first answer; at the end (for the projector's object:
+// before its pair is set up again) the subsets never asked for are asked in DESCENDING order and the counting-partition
+// oracle runs over the collected lists.
+Result
+check_cfgops(const json& c)
+{
+  Geo g;
+  shared_ptr<ProjectorByBinPair> pair;
+  shared_ptr<DataSymmetriesForViewSegmentNumbers> direct_sym;
+  const Result br = build_config(c, g, pair, direct_sym);
+  if (br.kind != Result::PASS)
+    return br;
+  const int code = c["sym"];
+  auto sym = [&]() -> const DataSymmetriesForViewSegmentNumbers& { return *pair->get_back_projector_sptr()->get_symmetries_used(); };
+  const ProjDataInfo& pdi = *g.pdi;
+  const int views = pdi.get_num_views();
+  const int data_smin = pdi.get_min_segment_num(), data_smax = pdi.get_max_segment_num();
+  const bool symmetric_data = data_smin == -data_smax;
+  const bool can_set_up = symmetric_data && code != 0 && !pdi.is_tof_data() && !C06_SANITIZED && views <= 24;
+
+  // the second projector pair / symmetries object that op 5 switches the objective function to
+  shared_ptr<ProjectorByBinPair> pairs[2] = { pair, shared_ptr<ProjectorByBinPair>() };
+  shared_ptr<DataSymmetriesForViewSegmentNumbers> direct_syms[2] = { direct_sym, shared_ptr<DataSymmetriesForViewSegmentNumbers>() };
+  const int alt_code = c.value("sym_alt", -1);
+  if (symmetric_data && alt_code >= 0 && alt_code != code)
+    if (build_pair(alt_code, g, pairs[1], direct_syms[1]).kind != Result::PASS)
+      pairs[1].reset();
+  int cur_pair = 0;
+
+  PoissonLogLikelihoodWithLinearModelForMeanAndProjData<Target> obj;
+  int cur_N = 1, cur_pm = data_smax;
+  if (symmetric_data)
+    {
+      shared_ptr<ProjData> pd(new ProjDataInMemory(pet_exam_info(), g.pdi, false));
+      obj.set_proj_data_sptr(pd);
+      obj.set_projector_pair_sptr(pair);
+      obj.set_max_segment_num_to_process(cur_pm);
+      obj.set_num_subsets(cur_N);
+    }
+  shared_ptr<PoissonLogLikelihoodWithLinearModelForMeanAndProjData<Target>> o2;
+  shared_ptr<Target> target2;
+
+  // own count of viewgrams per subset (fresh queries of the directly constructed object) -> balanced?
+  std::map<std::tuple<int, int, int>, bool> own_cache;
+  std::set<std::tuple<int, int, bool>> verdicts; // (N, pm, balanced) over both symmetries objects
+  auto own_balanced = [&](const int which, const int N, const int pm, bool& balanced) -> Result {
+    auto it = own_cache.find(std::make_tuple(which, N, pm));
+    if (it == own_cache.end())
+      {
+        std::vector<long> own;
+        int mg = 1;
+        const Result r = check_partition(pdi, *direct_syms[which], -pm, pm, N, own, mg);
+        if (r.failed())
+          return r;
+        bool b = true;
+        for (long n : own)
+          b = b && n == own[0];
+        it = own_cache.insert({ std::make_tuple(which, N, pm), b }).first;
+      }
+    balanced = it->second;
+    return Result::pass();
+  };
+  auto predicate = [&](const std::string& what) -> Result {
+    bool own = true;
+    const Result r = own_balanced(cur_pair, cur_N, cur_pm, own);
+    if (r.failed())
+      return r;
+    const bool lib = obj.subsets_are_approximately_balanced();
+    VF_CHECK(lib == own, what, ": ONE objective function object, now num_subsets=", cur_N, " max_segment_num_to_process=", cur_pm, " symmetry code ",
+             cur_pair ? alt_code : code, " (num_views=", views, "): subsets_are_approximately_balanced()=", lib, " but the own count says ", own);
+    if (verdicts.count(std::make_tuple(cur_N, cur_pm, !own)))
+      stats().count("reuse: predicate asked where the other symmetries object gave the other answer");
+    verdicts.insert(std::make_tuple(cur_N, cur_pm, own));
+    stats().count("reuse: predicate evaluations on a used objective function");
+    stats().count(own ? "balanced" : "unbalanced");
+    return Result::pass();
+  };
+
+  // lists per (object, segment range, num_subsets); an object = the projector's symmetries object (until the pair is set
+  // up again: its set_up creates a new one, the lists of the old one are completed and checked at that moment) or the
+  // directly constructed one.  Nothing is demanded across different objects.
+  typedef std::tuple<int, int, int, int> Key; // (0 projector's | 1 direct, min segment, max segment, num_subsets)
+  std::map<Key, std::vector<std::vector<ViewSegmentNumbers>>> lists;
+  std::map<Key, std::vector<char>> have;
+  int max_group = 1;
+  auto query = [&](const Key& k, const int subset, const std::string& what) -> Result {
+    const int N = std::get<3>(k);
+    auto& L = lists[k];
+    auto& H = have[k];
+    L.resize(std::size_t(N));
+    H.resize(std::size_t(N), 0);
+    const std::vector<ViewSegmentNumbers> now
+        = detail::find_basic_vs_nums_in_subset(pdi, std::get<0>(k) ? *direct_sym : sym(), std::get<1>(k), std::get<2>(k), subset, N);
+    if (H[std::size_t(subset)])
+      {
+        VF_CHECK(now == L[std::size_t(subset)], what, ": the list for (num_subsets=", N, ", subset ", subset, ", segments ", std::get<1>(k), "..", std::get<2>(k),
+                 ") has ", now.size(), " entries now and had ", L[std::size_t(subset)].size(), " (or other entries) when the SAME symmetries object was asked first",
+                 " (num_views=", views, ")");
+        stats().count("reuse: repeated list queries compared");
+      }
+    else
+      {
+        L[std::size_t(subset)] = now;
+        H[std::size_t(subset)] = 1;
+      }
+    return Result::pass();
+  };
+  // completion (the subsets never asked for, DESCENDING) + the counting partition over the collected lists
+  auto finalize = [&](const bool projector_only) -> Result {
+    for (auto it = lists.begin(); it != lists.end();)
+      {
+        const Key k = it->first;
+        if (projector_only && std::get<0>(k) != 0)
+          {
+            ++it;
+            continue;
+          }
+        const int N = std::get<3>(k);
+        for (int subset = N - 1; subset >= 0; --subset)
+          if (!have[k][std::size_t(subset)])
+            {
+              const Result r = query(k, subset, "completion");
+              if (r.failed())
+                return r;
+            }
+        std::vector<long> own;
+        const Result r = check_partition(pdi, std::get<0>(k) ? *direct_sym : sym(), std::get<1>(k), std::get<2>(k), N, own, max_group, &it->second);
+        if (r.failed())
+          return Result::fail("lists collected in generated order from ONE symmetries object: " + r.msg);
+        stats().count("reuse: partitions assembled from out-of-order queries");
+        have.erase(k);
+        it = lists.erase(it);
+      }
+    return Result::pass();
+  };
+
+  std::set<int> distinct_N;
+  int op_no = 0;
+  for (const json& op : c["ops"])
+    {
+      ++op_no;
+      const long a = op.at(1), b = op.at(2);
+      int kind = int(op.at(0).get<long>() % 6);
+      const int N = 1 + int(a % views);
+      if (kind == 5 && !pairs[1])
+        kind = 2;
+      if ((kind == 1 || kind == 2 || kind == 3) && !symmetric_data)
+        kind = 0; // the objective function needs segments -pm..pm to exist
+      if (kind == 4 && !can_set_up)
+        kind = symmetric_data ? 2 : 0;
+      const std::string what = cat("op ", op_no, " of ", c["ops"].size());
+      distinct_N.insert(N);
+      if (kind == 0 || kind == 1)
+        {
+          const int direct = (a / views) % 2 == 1 ? 1 : 0;
+          const Key k = kind == 0 ? Key(direct, data_smin, data_smax, N) : Key(direct, -cur_pm, cur_pm, N);
+          const Result r = query(k, int(b % N), what);
+          if (r.failed())
+            return r;
+        }
+      else if (kind == 2)
+        {
+          obj.set_num_subsets(N);
+          cur_N = N;
+          const Result r = predicate(what + " set_num_subsets");
+          if (r.failed())
+            return r;
+        }
+      else if (kind == 3)
+        {
+          cur_pm = int(a % (data_smax + 1));
+          obj.set_max_segment_num_to_process(cur_pm);
+          const Result r = predicate(what + " set_max_segment_num_to_process");
+          if (r.failed())
+            return r;
+        }
+      else if (kind == 5)
+        {
+          cur_pair = 1 - cur_pair;
+          obj.set_projector_pair_sptr(pairs[cur_pair]);
+          const Result r = predicate(what + " set_projector_pair_sptr");
+          if (r.failed())
+            return r;
+          stats().count("reuse: projector pair of the objective function exchanged");
+        }
+      else
+        {
+          const int pm2 = int(b % (data_smax + 1));
+          if (!o2)
+            {
+              o2.reset(new PoissonLogLikelihoodWithLinearModelForMeanAndProjData<Target>);
+              shared_ptr<ProjData> pd(new ProjDataInMemory(pet_exam_info(), g.pdi, true));
+              o2->set_proj_data_sptr(pd);
+              o2->set_projector_pair_sptr(pair);
+              o2->set_use_subset_sensitivities(false);
+              target2.reset(g.image->clone());
+              target2->set_exam_info(*pet_exam_info());
+            }
+          // (the set_up below replaces the projector's symmetries object: finish with the lists of the current one)
+          const Result fr = finalize(true);
+          if (fr.failed())
+            return fr;
+          o2->set_max_segment_num_to_process(pm2);
+          o2->set_num_subsets(N);
+          bool threw = false;
+          Succeeded ok = Succeeded::no;
+          std::string msg;
+          try
+            {
+              ok = o2->set_up(target2);
+            }
+          catch (const stir_verif::AssertionFailure&)
+            {
+              throw;
+            }
+          catch (const std::exception& e)
+            {
+              threw = true;
+              msg = e.what();
+            }
+          bool own = true;
+          const Result r = own_balanced(0, N, pm2, own);
+          if (r.failed())
+            return r;
+          // PoissonLogLikelihoodWithLinearModelForMean::set_up: "if (!subsets_are_approximately_balanced() &&
+          // !get_use_subset_sensitivities()) error(...)"
+          VF_CHECK((ok == Succeeded::yes && !threw) == own, what, ": set_up number ", stats().counters["reuse: set_ups on a used objective function"] + 1,
+                   " of ONE objective function, num_views=", views, " num_subsets=", N, " max_segment_num_to_process=", pm2,
+                   " use_subset_sensitivities=false: set_up succeeded=", ok == Succeeded::yes && !threw, " but own balancedness=", own, " (", msg.substr(0, 120), ")");
+          stats().count("reuse: set_ups on a used objective function");
+        }
+    }
+  const Result fr = finalize(false);
+  if (fr.failed())
+    return fr;
+  stats().cls("cfgops: one symmetries object / objective function, generated order");
+  stats().cls(cat("cfgops: sym code ", code));
+  if (max_group > 1)
+    stats().cls("cfgops: effective symmetry group size > 1");
+  if (pdi.is_tof_data())
+    stats().cls("cfgops: TOF");
+  if (o2)
+    stats().cls("cfgops: with set_up of a used objective function");
+  if (distinct_N.size() >= 3)
+    stats().cls("cfgops: >= 3 distinct num_subsets");
+  return Result::pass();
+}
+
 Result
 check(const json& c)
 {
   vg::quiet();
+  stir_verif::asserts_on = true; // (a failing schedule case leaves them off while its objects are destroyed)
   if (c["kind"] == "sched")
     return check_schedule(c);
+  if (c["kind"] == "hist")
+    return check_history(c);
+  if (c["kind"] == "cfgops")
+    return check_cfgops(c);
   return check_config(c);
 }
 
@@ -576,6 +1117,119 @@ cfg_case(int views, int m, int segs, int proc_max, int tof, int sym)
   c["tof"] = tof;
   c["sym"] = sym;
   return c;
+}
+
+json
+hist_run(int N, int start_subset, int start_subiter, int K, bool randomise, int flags)
+{
+  // (decoded by check_history: N = 1 + aN mod maxN, start = 1 + aSSI mod (3N+1), K = max(1, start + aExtra mod (4N+2) - 1))
+  return json::array({ "run", N - 1, start_subset, start_subiter - 1, K - start_subiter + 1, randomise ? 1 : 0, flags });
+}
+
+json
+hist_case(int algo, int maxN, int rseed, std::vector<json> runs)
+{
+  json c;
+  c["kind"] = "hist";
+  c["algo"] = algo;
+  c["maxN"] = maxN;
+  c["rseed"] = rseed;
+  c["ops"] = json(runs);
+  return c;
+}
+
+// (c') bounded-exhaustive block of object-reuse histories (both flavours):
+//  2 runs: all (N1, N2) in 1..M x randomise (off/on)^2 x run 1 = sub-iterations 1..K1, K1 in {N1 (a whole iteration),
+//          N1 + ceil(N1/2) (ends inside one)} x run 2 starting at every position of its first iteration and at the first
+//          of the second (start 1..N2+1), running to the end of that iteration and through one more; start subset
+//          N1-1 in run 1, kept in run 2 where it is still valid; 2 rand() seeds when a run is randomised;
+//          M = 6 (OSMAPOSL) / 4 (OSSPS), thorough: 9 / 6
+//  3 runs: randomised(N1) -> sequential(N2) -> randomised(N3), all N in 1..4 (a permutation cached two runs ago),
+//          run 3 starting at every position of its first iteration
+//  2 runs without set_up in between: N kept, randomise switched on/off, resume at the previous end + 1
+void
+add_history_space(std::vector<json>& out, int tier)
+{
+  for (int algo = 0; algo <= 1; ++algo)
+    {
+      const int M = tier ? (algo ? 6 : 9) : (algo ? 4 : 6);
+      for (int N1 = 1; N1 <= M; ++N1)
+        for (int N2 = 1; N2 <= M; ++N2)
+          for (int r1 = 0; r1 <= 1; ++r1)
+            for (int r2 = 0; r2 <= 1; ++r2)
+              for (int K1 : { N1, N1 + (N1 + 1) / 2 })
+                for (int start2 = 1; start2 <= N2 + 1; ++start2)
+                  for (int rseed = 1; rseed <= ((r1 || r2) ? 2 : 1); ++rseed)
+                    {
+                      if (K1 != N1 && N1 == 1 && start2 > 1)
+                        continue; // (N1 = 1: both lengths end on an iteration boundary; keep one representative)
+                      const int K2 = ((start2 - 1) / N2 + 2) * N2;
+                      out.push_back(hist_case(algo, M, rseed,
+                                              { hist_run(N1, N1 - 1, 1, K1, r1 == 1, 0), hist_run(N2, std::min(N1, N2) - 1, start2, K2, r2 == 1, 4) }));
+                    }
+      const int M3 = algo ? 3 : 4;
+      for (int N1 = 1; N1 <= M3; ++N1)
+        for (int N2 = 1; N2 <= M3; ++N2)
+          for (int N3 = 1; N3 <= M3; ++N3)
+            for (int start3 = 1; start3 <= N3; ++start3)
+              for (int rseed = 1; rseed <= 2; ++rseed)
+                out.push_back(hist_case(algo, M3, rseed,
+                                        { hist_run(N1, 0, 1, N1 + (N1 + 1) / 2, true, 0), hist_run(N2, 0, 2, 2 * N2, false, 0),
+                                          hist_run(N3, N3 - 1, start3, ((start3 - 1) / N3 + 2) * N3, true, 0) }));
+    }
+  // OSMAPOSL without set_up between the runs (flags 1|8: N kept, no set_up; 16: resume)
+  for (int N = 1; N <= 6; ++N)
+    for (int r1 = 0; r1 <= 1; ++r1)
+      for (int r2 = 0; r2 <= 1; ++r2)
+        for (int K1 : { N, N + (N + 1) / 2 })
+          for (int resume = 0; resume <= 1; ++resume)
+            for (int start2 = 1; start2 <= (resume ? 1 : N + 1); ++start2)
+              {
+                const int s2 = resume ? K1 + 1 : start2;
+                out.push_back(hist_case(0, 6, 1,
+                                        { hist_run(N, 0, 1, K1, r1 == 1, 0), hist_run(N, N - 1, s2, s2 + 2 * N - 1, r2 == 1, 1 | 8 | (resume ? 16 : 0)) }));
+              }
+}
+
+// (a'/b') deterministic block of generated-order cases: num_subsets DESCENDING from num_views to 1 and up again on one
+// objective function / symmetries object, the projector pair exchanged and exchanged back at every step (predicate
+// asked each time), lists asked for the last subset first, max_segment_num_to_process lowered half-way, a used second
+// objective function set up for every num_subsets (descending)
+void
+add_cfgops_space(std::vector<json>& out)
+{
+  struct SymPair
+  {
+    int sym, alt;
+  };
+  for (int views : { 3, 4, 6, 8, 12, 16, 24 })
+    for (const SymPair sp : { SymPair{ 0, 7 }, SymPair{ 7, 0 }, SymPair{ 3, 5 }, SymPair{ 2, 7 }, SymPair{ 5, 2 } })
+      for (int segs = 0; segs <= 1; ++segs)
+        {
+          json c = cfg_case(views, 1, segs, -1, 1, sp.sym);
+          c["kind"] = "cfgops";
+          c["sym_alt"] = sp.alt;
+          json ops = json::array();
+          for (int N = views; N >= 1; --N)
+            {
+              ops.push_back(json::array({ 2, N - 1, 0 }));
+              ops.push_back(json::array({ 5, 0, 0 }));
+              ops.push_back(json::array({ 0, N - 1, N - 1 }));
+              ops.push_back(json::array({ 1, N - 1 + views, 0 }));
+              ops.push_back(json::array({ 5, 0, 0 }));
+              ops.push_back(json::array({ 4, N - 1, segs }));
+              if (N == views / 2)
+                ops.push_back(json::array({ 3, 0, 0 }));
+            }
+          for (int N = 1; N <= views; ++N)
+            {
+              ops.push_back(json::array({ 2, N - 1, 0 }));
+              ops.push_back(json::array({ 0, N - 1, N - 1 }));
+              ops.push_back(json::array({ 4, N - 1, 0 }));
+            }
+          c["ops"] = ops;
+          out.push_back(c);
+        }
 }
 
 const std::vector<json>&
@@ -667,6 +1321,8 @@ space(int tier)
               c["num_subiters"] = K;
               out.push_back(c);
             }
+  add_history_space(out, tier);
+  add_cfgops_space(out);
   return out;
 }
 
@@ -685,7 +1341,58 @@ json
 gen(Src& s, int size)
 {
   json c;
-  if (s.chance(1, 3))
+  const int which = int(s.range(0, 8));
+  if (which <= 2)
+    { // object-reuse history: 2-4 runs on one reconstruction object
+      const int algo = s.chance(1, 4) ? 1 : 0;
+      const int maxN = int(s.pick(std::vector<int>{ 2, 3, 4, 6, 12, 13 + size / 4 }));
+      std::vector<json> runs;
+      const int n = int(s.range(2, 4));
+      for (int k = 0; k < n; ++k)
+        {
+          int flags = 0;
+          flags |= s.chance(1, 4) ? 1 : 0;  // num_subsets kept
+          flags |= s.chance(1, 4) ? 2 : 0;  // randomise kept
+          flags |= s.chance(1, 2) ? 4 : 0;  // start subset kept where still valid
+          flags |= s.chance(1, 2) ? 8 : 0;  // no set_up where none is required
+          flags |= s.chance(1, 3) ? 16 : 0; // resume
+          flags |= s.chance(1, 6) ? 32 : 0; // new objective function object
+          runs.push_back(json::array({ "run", int(s.range(0, 999)), int(s.range(0, 999)), int(s.range(0, 999)), int(s.range(0, 999)),
+                                       s.chance(2, 3) ? 1 : 0, flags }));
+        }
+      return hist_case(algo, maxN, int(s.range(1, 1000)), runs);
+    }
+  if (which == 3 || which == 4)
+    { // one symmetries object / objective function asked in generated order
+      const int views = int(s.range(2, C06_SANITIZED ? 24 : 40 + size));
+      c = cfg_case(views, int(s.pick(std::vector<int>{ 1, 1, 2 })), int(s.range(0, 2)), -1, s.chance(1, 4) ? 3 : 1, int(s.range(0, 7)));
+      c["kind"] = "cfgops";
+      c["sym_alt"] = int(s.range(0, 7));
+      if (s.chance(1, 8))
+        c["tilt"] = true;
+      if (s.chance(1, 8))
+        c["nonsquare"] = true;
+      if (s.chance(1, 8))
+        {
+          c["subset_by_view"] = int(s.range(2, 3));
+          c["subset_by_view_offset"] = int(s.range(0, 2));
+        }
+      const int sym = c["sym"], segs = c["segs"];
+      const bool swap_seg = sym == 2 || sym == 4 || sym >= 6;
+      if (segs > 0 && !swap_seg && s.chance(1, 8))
+        { // asymmetric range (only without swap-segment: assertion in find_basic_vs_nums_in_subset)
+          c["seg_lo"] = -int(s.range(0, segs - 1));
+          c["seg_hi"] = segs;
+        }
+      json ops = json::array();
+      const int n = int(s.range(4, 24));
+      for (int k = 0; k < n; ++k)
+        // (small arguments half of the time: the same few num_subsets come back, lists are asked for repeatedly)
+        ops.push_back(json::array({ int(s.range(0, 5)), int(s.chance(1, 2) ? s.range(0, 5) : s.range(0, 999)), int(s.range(0, 999)) }));
+      c["ops"] = ops;
+      return c;
+    }
+  if (which <= 6)
     {
       c["kind"] = "sched";
       const int N = int(s.range(1, 13 + size / 4));
@@ -696,7 +1403,7 @@ gen(Src& s, int size)
       c["num_subiters"] = c["start_subiter"].get<int>() + int(s.range(0, 4 * N));
       return c;
     }
-  const int views = int(s.range(2, 97 + size * 2));
+  const int views = int(s.range(2, C06_SANITIZED ? 40 : 97 + size * 2)); // (the sanitizer build is ~20x slower)
   c = cfg_case(views, int(s.pick(std::vector<int>{ 1, 1, 2, 3 })), int(s.range(0, 3)), -1, s.chance(1, 4) ? 3 : 1, int(s.range(0, 7)));
   const int segs = c["segs"];
   if (segs > 0 && s.chance(1, 3))
@@ -728,6 +1435,11 @@ nontrivial(const json& c)
 {
   if (c["kind"] == "sched")
     return c["randomise"].get<bool>() || c["start_subset"].get<int>() != 0 || c["start_subiter"].get<int>() != 1;
+  // a history is non-trivial when the object is really used again; generated-order queries when something can repeat
+  if (c["kind"] == "hist")
+    return c["ops"].size() >= 2;
+  if (c["kind"] == "cfgops")
+    return c["ops"].size() >= 3 && c["views"].get<int>() >= 3;
   // all num_subsets 1..views are run inside a case: some do not divide num_views as soon as views >= 3
   return c["views"].get<int>() >= 3 || c["sym"].get<int>() >= 2;
 }
@@ -743,5 +1455,6 @@ the_property()
   p.check = check;
   p.nontrivial = nontrivial;
   p.enumerate = enumerate;
+  p.shrink_lists = { "ops" };
   return p;
 }
